@@ -952,6 +952,24 @@ def oracle_c08(sc, obs):
         if not others_same:
             bad.append(f"frame: {where}: the position of an agent not named in the call changed")
         pa = B["pos"][a]
+        if res == "ok" and not (k == "place" and pa is not None):
+            # what the call does to the cell lists: every agent whose pos changed left its old list and was appended to its new
+            # one (swap: a first, then the other), no other list is touched — the order inside a MultiGrid cell is observable
+            want = {c: list(l) for c, l in Bc.items()}
+            movers = [a] + ([int(op[2])] if k == "swap" and int(op[2]) != a else [])
+            movers = [m for m in movers if A["pos"][m] != B["pos"][m] or k in ("move", "mte", "mto")]
+            if k == "mto" and not pairs(split_script(op)[0][5:]):
+                movers = []
+            for m in movers:
+                if B["pos"][m] is not None and m in want[tuple(B["pos"][m])]:
+                    want[tuple(B["pos"][m])].remove(m)
+            for m in movers:
+                if A["pos"][m] is not None and tuple(A["pos"][m]) in want:
+                    want[tuple(A["pos"][m])].append(m)
+            Ac = {tuple(map(int, kk.split(","))): list(v) for kk, v in A["cells"].items()}
+            if Ac != want:
+                diff = sorted(c for c in want if want[c] != Ac.get(c))
+                bad.append(f"lists: {where}: cell list(s) {diff} are {[Ac.get(c) for c in diff]}, expected {[want[c] for c in diff]}")
         if k == "place" and pa is None:
             p = (int(op[2]), int(op[3]))
             occupied = bool(Bc[p])
